@@ -211,8 +211,60 @@ func marshalAll(vs []any) string {
 // runOnce runs code on input with $v, checking the frozen outputs at every
 // step; it returns the outputs, the terminal error text and a violation.
 func runOnce(code *gojq.Code, input, v any, limit int) (vals []any, errText string, budget bool, msg string) {
+	vals, errText, budget, msg, _ = runKeep(code, input, v, limit)
+	return
+}
+
+// handle is an iterator kept after runOnce returned: finished ones are polled
+// again while later runs are under way (they must stay exhausted), partially
+// consumed ones are resumed at the end (later runs must not have disturbed
+// them).
+type handle struct {
+	it       gojq.Iter
+	ctx      *run.CountCtx
+	finished bool // Next returned false
+	partial  bool // stopped by the limit, still alive
+	emitted  int
+}
+
+// poll: an exhausted iterator stays exhausted.
+func (h *handle) poll(when string) string {
+	if !h.finished {
+		return ""
+	}
+	if x, ok := h.it.Next(); ok {
+		return fmt.Sprintf("an iterator that had returned false yields %s %s", univ.Show(x), when)
+	}
+	return ""
+}
+
+// resume runs a partially consumed iterator to its end.
+func (h *handle) resume() (vals []any, errText string, budget bool) {
+	for {
+		x, ok := h.it.Next()
+		if !ok {
+			h.finished, h.partial = true, false
+			return
+		}
+		if e, isErr := x.(error); isErr {
+			if h.ctx.Fired() {
+				return vals, "", true
+			}
+			h.partial = false
+			return vals, e.Error(), false
+		}
+		if refjq.TreeSize(x, 20000) > 20000 || len(vals)+h.emitted >= maxOuts {
+			return vals, "", true
+		}
+		vals = append(vals, x)
+	}
+}
+
+func runKeep(code *gojq.Code, input, v any, limit int) (vals []any, errText string, budget bool, msg string, h *handle) {
 	ctx := run.NewCountCtx(steps)
 	it := code.RunWithContext(ctx, input, v)
+	h = &handle{it: it, ctx: ctx}
+	defer func() { h.emitted = len(vals) }()
 	var fz []frozen
 	check := func(when string) string {
 		for _, f := range fz {
@@ -224,35 +276,37 @@ func runOnce(code *gojq.Code, input, v any, limit int) (vals []any, errText stri
 	}
 	for i := 0; ; i++ {
 		if limit >= 0 && i >= limit {
+			h.partial = true
 			break // partially consumed iterator left alive
 		}
 		x, ok := it.Next()
 		if !ok {
+			h.finished = true
 			break
 		}
 		if e, isErr := x.(error); isErr {
 			if ctx.Fired() {
-				return vals, "", true, ""
+				return vals, "", true, "", h
 			}
 			errText = e.Error()
 			break
 		}
 		if m := check(fmt.Sprintf("while the iterator advanced to output %d", i)); m != "" {
-			return vals, errText, false, m
+			return vals, errText, false, m, h
 		}
 		if refjq.TreeSize(x, 20000) > 20000 {
-			return vals, "", true, ""
+			return vals, "", true, "", h
 		}
 		fz = append(fz, frozen{live: x, copy: univ.Copy(x), step: i})
 		vals = append(vals, x)
 		if len(vals) >= maxOuts {
-			return vals, "", true, ""
+			return vals, "", true, "", h
 		}
 	}
 	if m := check("after the iterator finished"); m != "" {
-		return vals, errText, false, m
+		return vals, errText, false, m, h
 	}
-	return vals, errText, false, ""
+	return vals, errText, false, "", h
 }
 
 func check(c isoCase) (msg, discard string) {
@@ -287,9 +341,23 @@ func check(c isoCase) (msg, discard string) {
 		return ""
 	}
 
-	first, firstErr, budget, m := runOnce(code, input, vval, -1)
+	first, firstErr, budget, m, h0 := runKeep(code, input, vval, -1)
 	if m != "" {
 		return m, ""
+	}
+	handles := []*handle{h0}
+	type part struct {
+		h      *handle
+		prefix []any
+	}
+	var parts []part
+	pollAll := func(when string) string {
+		for _, h := range handles {
+			if m := h.poll(when); m != "" {
+				return m
+			}
+		}
+		return ""
 	}
 	if budget {
 		return "", "budget"
@@ -303,25 +371,44 @@ func check(c isoCase) (msg, discard string) {
 	for i, h := range c.History {
 		var vals []any
 		var errText string
+		var hd *handle
+		if m := pollAll(fmt.Sprintf("before history step %d (%s)", i, h)); m != "" {
+			return m, ""
+		}
 		switch {
 		case h == "same":
-			vals, errText, budget, m = runOnce(code, input, vval, -1)
+			vals, errText, budget, m, hd = runKeep(code, input, vval, -1)
+			handles = append(handles, hd)
 		case h == "fresh":
 			in2, _ := c.Spec.build()
-			vals, errText, budget, m = runOnce(code, in2, univ.Copy(c.Var.X), -1)
+			vals, errText, budget, m, hd = runKeep(code, in2, univ.Copy(c.Var.X), -1)
+			handles = append(handles, hd)
 		case h == "other":
-			_, _, _, m = runOnce(code, other[i%2], univ.Copy(c.Var.X), -1)
+			_, _, _, m, hd = runKeep(code, other[i%2], univ.Copy(c.Var.X), -1)
+			handles = append(handles, hd)
 			if m != "" {
+				return m, ""
+			}
+			if m := pollAll(fmt.Sprintf("after history step %d (%s)", i, h)); m != "" {
 				return m, ""
 			}
 			continue
 		case strings.HasPrefix(h, "partial:"):
 			k := int(h[len("partial:")] - '0')
-			_, _, _, m = runOnce(code, input, vval, k)
+			var pre []any
+			pre, _, _, m, hd = runKeep(code, input, vval, k)
 			if m != "" {
 				return m, ""
 			}
+			if hd.partial {
+				parts = append(parts, part{hd, pre})
+			} else {
+				handles = append(handles, hd)
+			}
 			if m := pristine(fmt.Sprintf("by a partially consumed run (history step %d)", i)); m != "" {
+				return m, ""
+			}
+			if m := pollAll(fmt.Sprintf("after history step %d (%s)", i, h)); m != "" {
 				return m, ""
 			}
 			continue
@@ -347,6 +434,30 @@ func check(c isoCase) (msg, discard string) {
 		if !univ.Same(first, firstCopy) {
 			return fmt.Sprintf("outputs of the first run changed after history step %d (%s): %s -> %s", i, h, univ.Show(firstCopy), univ.Show(first)), ""
 		}
+		if m := pollAll(fmt.Sprintf("after history step %d (%s)", i, h)); m != "" {
+			return m, ""
+		}
+	}
+	// iterators left alive half-way are resumed, the oldest first: the runs
+	// started in between must not have disturbed them
+	for n, p := range parts {
+		rest, errText, budget := p.h.resume()
+		if budget {
+			return "", "budget"
+		}
+		all := append(append([]any{}, p.prefix...), rest...)
+		if errText != firstErr || !univ.EqualStreams(all, first) {
+			return fmt.Sprintf("partially consumed iterator %d, resumed after the later runs, gives %s err=%q in all, the first run gave %s err=%q", n, univ.ShowAll(all), errText, univ.ShowAll(first), firstErr), ""
+		}
+		if p.h.finished {
+			handles = append(handles, p.h)
+		}
+		if m := pollAll(fmt.Sprintf("after resuming partially consumed iterator %d", n)); m != "" {
+			return m, ""
+		}
+	}
+	if m := pristine("by resuming the partially consumed runs"); m != "" {
+		return m, ""
 	}
 	return "", ""
 }
